@@ -1,6 +1,7 @@
 package monitor
 
 import (
+	"bytes"
 	"fmt"
 	"io"
 	"math"
@@ -15,13 +16,27 @@ import (
 
 // ---------------------------------------------------------------- C12
 
-func decodeCheck[T any](c *Ctx, cs *h.Case, name string, d []byte, read func([]byte) (T, int, error), dec func([]byte, *T) (int, error), sentinels [2]T, eq func(a, b T) bool) {
+func decodeCheck[T any](c *Ctx, cs *h.Case, name string, d []byte, read func([]byte) (T, int, error), dec func([]byte, *T) (int, error), sentinels [2]T, eq func(a, b T) bool, extras ...func([]byte) []T) {
+	var extra func([]byte) []T
+	if len(extras) > 0 {
+		extra = extras[0]
+	}
 	c.Guarded(cs, "Decode"+name, func() {
 		rv, rp, rerr := read(d)
 		c.Rec.Evals(1)
 		p0 := refmodel.SkipWS(d, 0)
 		isNull := strings.HasPrefix(string(d[p0:]), "null")
-		for _, s := range sentinels {
+		// prior targets: two fixed sentinels plus values CORRELATED with the input - the value the
+		// reader returns (a 'value unchanged' fast path would then be taken) and whatever extra()
+		// derives from the raw input (seeded change C12r3-m2)
+		all := append([]T{}, sentinels[:]...)
+		if rerr == nil {
+			all = append(all, rv)
+		}
+		if extra != nil {
+			all = append(all, extra(d)...)
+		}
+		for _, s := range all {
 			t := s
 			p, err := dec(d, &t)
 			c.Rec.Evals(1)
@@ -70,11 +85,11 @@ func RunC12(c *Ctx) {
 		decodeCheck(c, cs, "String", d,
 			func(b []byte) (string, int, error) { return rjson.ReadString(b, nil) },
 			func(b []byte, v *string) (int, error) { return rjson.DecodeString(b, v, nil) },
-			[2]string{"sentinel-one", ""}, eqc[string])
+			[2]string{"sentinel-one", ""}, eqc[string], rawStringTargets)
 		decodeCheck(c, cs, "String(scratch)", d,
 			func(b []byte) (string, int, error) { return rjson.ReadString(b, nil) },
 			func(b []byte, v *string) (int, error) { return rjson.DecodeString(b, v, &scratch) },
-			[2]string{"sentinel-two", "x"}, eqc[string])
+			[2]string{"sentinel-two", "x"}, eqc[string], rawStringTargets)
 		if c.Rec.WantSample() && c.Rec.R.Cases%5003 == 1 {
 			t := int64(-5)
 			p, err := rjson.DecodeInt64(d, &t)
@@ -99,6 +114,7 @@ func RunC12(c *Ctx) {
 		check(cs)
 	}
 	workload.W1R(sink)
+	workload.W1Words(sink)
 	nullVariants(sink)
 	workload.W1(c.Thorough(), func(cs *h.Case) {
 		if cs.P[0] < workload.TopLevelSeeds() {
@@ -397,6 +413,7 @@ func RunC13(c *Ctx) {
 		}
 	}
 	workload.W1R(sink)
+	workload.W1Words(sink)
 	nullVariants(sink)
 	workload.W1(c.Thorough(), sink)
 	n := 300000
@@ -418,4 +435,23 @@ func RunC13(c *Ctx) {
 		soup.Desc = fmt.Sprintf("token soup #%d", i)
 		sink(soup)
 	}
+}
+
+// rawStringTargets derives prior target values from the input itself: the raw bytes between the
+// first two quotes (unescaped or not, well-formed or not), and the same with its last byte dropped.
+func rawStringTargets(d []byte) []string {
+	i := bytes.IndexByte(d, '"')
+	if i < 0 {
+		return nil
+	}
+	j := bytes.IndexByte(d[i+1:], '"')
+	if j < 0 {
+		return []string{string(d[i+1:])}
+	}
+	raw := string(d[i+1 : i+1+j])
+	out := []string{raw}
+	if len(raw) > 0 {
+		out = append(out, raw[:len(raw)-1])
+	}
+	return out
 }
